@@ -27,6 +27,7 @@ def read(rel):
 
 
 def strip_comments(s):
+    s = re.sub(r"/\*.*?\*/", "", s, flags=re.S)
     s = re.sub(r"//[^\n]*", "", s)
     return s
 
@@ -97,15 +98,36 @@ def const_value(src, val, maxp, depth=0):
 
 
 def priority_table(src, ops):
-    m = re.search(r"pub const MAX_PRIORITY_LEVEL_FOR_EXPRESSIONS: u8 = (\d+);", src)
+    m = re.search(r"\bconst\s+MAX_PRIORITY_LEVEL_FOR_EXPRESSIONS\s*:\s*u8\s*=\s*(\d+)\s*;", src)
     if not m:
         die("MAX_PRIORITY_LEVEL_FOR_EXPRESSIONS not found")
     maxp = int(m.group(1))
-    m = re.search(
-        r"pub const fn priority\(&self\) -> u8 \{\s*match self \{(.*?)\n        \}\n    \}", src, re.S
-    )
+    # `fn priority(&self) -> u8 { match self { ... } }`, whatever its qualifiers and indentation:
+    # the body of the first `match self {` after the signature, by brace matching
+    m = re.search(r"\bfn\s+priority\s*\(\s*&\s*self\s*\)\s*->\s*u8\s*\{", src)
     if not m:
-        die("ExpressionOperations::priority: shape not recognised")
+        die("ExpressionOperations::priority: signature not recognised")
+    mm = re.search(r"\bmatch\s+\*?\s*self\s*\{", src[m.end():])
+    if not mm:
+        die("ExpressionOperations::priority: `match self` not found")
+    i = m.end() + mm.end()
+    depth, j = 1, i
+    while depth > 0:
+        if j >= len(src):
+            die("ExpressionOperations::priority: unbalanced braces")
+        if src[j] == "{":
+            depth += 1
+        elif src[j] == "}":
+            depth -= 1
+        j += 1
+
+    class _M:       # the shape the code below expects from a regex match
+        def __init__(self, text):
+            self.text = text
+
+        def group(self, k):
+            return self.text
+    m = _M(src[i:j - 1])
     body = strip_comments(m.group(1))
     table = {}
     # arms:  Self::A | Self::B => value,   or  => { value }
